@@ -60,8 +60,8 @@ func genCtx(r *Rng, tier string, n int, emit func(string)) {
 
 // ---------------------------------------------------------------- per request state
 
-func ctxTok(k int) string     { return "t" + itoa(k) + "z" }
-func ctxStatus(k int) int     { return 200 + k%57 }
+func ctxTok(k int) string { return "t" + itoa(k) + "z" }
+func ctxStatus(k int) int { return 200 + k%57 }
 
 // ctxIPOfTok: the client address the test resolver reports for the request carrying token tok ("t<k>z")
 func ctxIPOfTok(tok string) *net.IPAddr {
@@ -90,6 +90,8 @@ type ctxProbe struct {
 	ctxID    uintptr
 	handlers int
 	run      *ctxRun
+	pushRec  *recWriter // set when the request was served on a writer that supports (pushMode 1) or lacks (2) http.Pusher
+	pushMode int
 }
 
 func (p *ctxProbe) fail(format string, a ...any) {
@@ -195,6 +197,19 @@ func (p *ctxProbe) checkAll(c fox.Context, tok, method, host, path string, wantS
 		p.fail("Writer() is nil")
 		return
 	}
+	// an optional capability is that of the CURRENT request's writer: a push reaches this request's connection, or is
+	// refused when this connection cannot push - whatever writer the recycled context served before
+	switch p.pushMode {
+	case 1:
+		n0 := len(p.pushRec.events)
+		if err := w.Push("/pushed/"+tok, nil); err != nil || len(p.pushRec.events) != n0+1 || p.pushRec.events[n0] != "push:/pushed/"+tok {
+			p.fail("Push on a writer that supports it: err=%v, recorded by this request's writer: %v", err, p.pushRec.events[n0:])
+		}
+	case 2:
+		if err := w.Push("/pushed/"+tok, nil); !errors.Is(err, http.ErrNotSupported) {
+			p.fail("Push on a writer without http.Pusher: err=%v, want ErrNotSupported", err)
+		}
+	}
 	if w.Status() != wantStatus || w.Written() != wantWritten || (!wantWritten && w.Size() != 0) {
 		p.fail("Writer() status/size/written = %d/%d/%v want %d/-/%v", w.Status(), w.Size(), w.Written(), wantStatus, wantWritten)
 	}
@@ -203,6 +218,14 @@ func (p *ctxProbe) checkAll(c fox.Context, tok, method, host, path string, wantS
 // ---------------------------------------------------------------- writers
 
 type ctxHijackWriter struct{ *recWriter }
+
+// ctxPushWriter supports HTTP/2 push and records the targets on the recWriter of ITS request
+type ctxPushWriter struct{ *recWriter }
+
+func (h ctxPushWriter) Push(target string, _ *http.PushOptions) error {
+	h.events = append(h.events, "push:"+target)
+	return nil
+}
 
 func (h ctxHijackWriter) Hijack() (net.Conn, *bufio.ReadWriter, error) {
 	a, b := net.Pipe()
@@ -417,6 +440,12 @@ func (run *ctxRun) op(op byte, k int) string {
 	var w http.ResponseWriter = rec
 	if op == 'h' {
 		w = ctxHijackWriter{rec}
+	} else {
+		// connections that can push alternate with connections that cannot
+		p.pushRec, p.pushMode = rec, 2
+		if k%2 == 0 {
+			w, p.pushMode = ctxPushWriter{rec}, 1
+		}
 	}
 	run.r.ServeHTTP(w, req)
 	if p.handlers != 1 {
